@@ -154,9 +154,46 @@ static void run_witness(uint64_t idx, pv_rng* rng) {
     pv_api_free(s);
 }
 
+/* every reachable exact decomposed length of every language, so that a boundary anywhere inside the range (an internal
+ * buffer smaller than the public one, a fast path for "short" phrases) is hit exactly */
+#define MAXLEN 640
+static uint64_t n_lengths(void) { return (uint64_t)pv_nlangs * MAXLEN * pv_scaled(1, 8); }
+static void run_lengths(uint64_t idx, pv_rng* rng) {
+    int l = (int)(idx % (uint64_t)pv_nlangs); pv_mlang* L = &pv_langs[l];
+    long target = (long)((idx / (uint64_t)pv_nlangs) % MAXLEN);
+    if (!L->lib) return;
+    long mn, mx; pv_lang_length_range(L, &mn, &mx);
+    if (target < mn || target > mx) return;
+    unsigned coin = pv_gen_coin(rng), d[16]; pv_mseed m;
+    if (!pv_gen_exact_length(rng, L, coin, target, 7, d, &m)) { pv_countf(1, "lengths.unreached.%s", L->key); return; }
+    polyseed_data* s = pv_seed_from_model(&m);
+    if (!s) { pv_violation("C17/witness-load", "%s: cannot load %s", L->name_en, pv_mseed_str(&m)); return; }
+    char* out = malloc(POLYSEED_STR_SIZE);
+    pv_cur.note = "exact-length-encode";
+    bool armed = idx % 5 == 4; if (armed) pv_w->fail_countdown = 1;
+    size_t n = pv_api_encode(s, L->lib, coin, out);
+    pv_w->fail_countdown = 0;
+    PV_COUNT("evaluations", 1);
+    char want[2048]; size_t wn = pv_m_encode(&m, L, coin, want, sizeof want);
+    size_t real = strnlen(out, POLYSEED_STR_SIZE);
+    if (real >= POLYSEED_STR_SIZE || n != real) pv_violation("C17/returned-length", "%s: %ld-byte phrase: encode returned %zu, strlen %zu", L->name_en, target, n, real);
+    else if (real != wn || memcmp(out, want, wn)) pv_violation("C17/phrase-at-exact-length", "%s: phrase of exactly %ld decomposed bytes differs from the model ('%s' vs '%s')", L->name_en, target, pv_esc(out), pv_esc(want));
+    else {
+        polyseed_data* t = NULL; int st = pv_api_decode_explicit(out, coin, L->lib, &t);
+        PV_COUNT("evaluations", 1);
+        if (st != POLYSEED_OK) pv_violation("C17/witness-does-not-decode", "%s: %ld-byte phrase -> %s", L->name_en, target, pv_status_name(st));
+        else { uint8_t a[32], b[32]; pv_api_store(t, a); pv_m_image(&m, b); if (memcmp(a, b, 32)) pv_violation("C17/witness-decodes-differently", "%s: %ld-byte phrase", L->name_en, target); pv_api_free(t); }
+        pv_countf(1, "lengths.encoded.%s", L->key);
+        PV_DISTINCT("lengths", pv_mix((uint64_t)l, (uint64_t)target));
+        PV_DISTINCT("nontrivial", pv_mix(pv_hash(d, sizeof d, (uint64_t)l), coin));
+    }
+    free(out);
+    pv_api_free(s);
+}
+
 static void fini(void) { pv_set_flag("exhaustive.bound(all words x positions x languages)", true); }
 
 int main(int argc, char** argv) {
-    static const pv_section secs[] = { { "bound", n_bound, run_bound }, { "witness", n_witness, run_witness } };
-    return pv_main(argc, argv, "C17", secs, 2, init, fini);
+    static const pv_section secs[] = { { "bound", n_bound, run_bound }, { "witness", n_witness, run_witness }, { "lengths", n_lengths, run_lengths } };
+    return pv_main(argc, argv, "C17", secs, 3, init, fini);
 }
